@@ -5,7 +5,7 @@ LEVEL = "model_checking"
 
 def run(ctx, args):
     run_focus(ctx, "C06", [("MC_ProxyC06q.cfg", 2, 1)] if ctx.quick else [("MC_ProxyC06t.cfg", 1, 6)],
-              reach=("Reach_HopInserted", "Reach_Backend"), driver_env={"VERIF_REPS": 2}, extra_drivers=[("TestVfWiring", {})],
+              reach=("Reach_HopInserted", "Reach_Backend"), driver_env={"VERIF_REPS": 2, "VERIF_FAULTHIST": 8 if ctx.quick else 80}, extra_drivers=[("TestVfWiring", {})],
               rule="requests with 0-3 Via and 0-3 Record-Route entries in every header-line layout and 6 positions of From / Max-Forwards, "
                    "three relaying paths (backend, Route, static route), must-record-route on/off, next hop learned by source / by Via host / through another listener / not learned; plus the YAML wiring driver (services with several listeners, "
                    "one Proxy object per listener: the stamped branch must be fresh across all of them)")
